@@ -393,8 +393,8 @@ func c08Root(c *Ctx, an *effects.Analysis, root c08RootSpec, sizeFns, isMS map[*
 	siteOf := map[string]*c08Site{}
 	for _, rec := range recs {
 		s := &c08Site{key: rec.Key, in: rec.In, desc: describeNarrow(rec.In), pos: posOfInstr(rec.In), seen: rec.Seen, bad: rec.Bad}
-		// masks get a semantic key (function that owns the field, field, width): robust against edits
-		// that shift instruction ordinals, so that known findings keep matching
+		// masks get a semantic key (struct type that declares the field, field, width): robust against edits
+		// that shift instruction ordinals or move the masking into a helper, so that known findings keep matching
 		if rec.Mask != 0 {
 			if owner, origin := maskOrigin(rec); origin != "" {
 				w := "variable-width"
@@ -405,7 +405,7 @@ func c08Root(c *Ctx, an *effects.Analysis, root c08RootSpec, sizeFns, isMS map[*
 					}
 					w = fmt.Sprintf("%d-bits", n)
 				}
-				s.key = fmt.Sprintf("%s/mask-cuts-%s-to-%s", owner, origin, w)
+				s.key = fmt.Sprintf("%s.%s/mask-cuts-to-%s", owner, origin, w)
 				s.desc += " (operand: " + origin + ")"
 			}
 		}
@@ -618,6 +618,7 @@ func maskOrigin(rec *num.NarrowRec) (owner, origin string) {
 		return "", ""
 	}
 	call := rec.Call
+	ownerType := "" // the named struct type that declares the field (stable when code moves between functions)
 	var trace func(v ssa.Value, depth int) (string, *ssa.Function)
 	trace = func(v ssa.Value, depth int) (string, *ssa.Function) {
 		if depth > 10 || v == nil {
@@ -652,6 +653,7 @@ func maskOrigin(rec *num.NarrowRec) (owner, origin string) {
 				switch a := x.X.(type) {
 				case *ssa.FieldAddr:
 					if st, ok := a.X.Type().Underlying().(*types.Pointer).Elem().Underlying().(*types.Struct); ok {
+						ownerType = namedOf(a.X.Type())
 						return st.Field(a.Field).Name(), x.Parent()
 					}
 				case *ssa.IndexAddr:
@@ -665,6 +667,7 @@ func maskOrigin(rec *num.NarrowRec) (owner, origin string) {
 			return trace(x.X, depth+1)
 		case *ssa.Field:
 			if st, ok := x.X.Type().Underlying().(*types.Struct); ok {
+				ownerType = namedOf(x.X.Type())
 				return st.Field(x.Field).Name(), x.Parent()
 			}
 		case *ssa.Convert:
@@ -686,7 +689,11 @@ func maskOrigin(rec *num.NarrowRec) (owner, origin string) {
 		return "", nil
 	}
 	for _, o := range []ssa.Value{b.X, b.Y} {
+		ownerType = ""
 		if n, f := trace(o, 0); n != "" && f != nil {
+			if ownerType != "" && !strings.Contains(ownerType, " ") {
+				return ownerType, n
+			}
 			return core.FuncName(f), n
 		}
 	}
